@@ -1,15 +1,19 @@
-import sys, importlib, json, pkgutil
+import sys, importlib, json, pkgutil, time
 sys.path.insert(0, '/verif')
 from h2vc import spec, prove, deps_model, cli, hdrmodel
 cli.load_contracts()
-V = prove.Verifier()
 pat = sys.argv[1] if len(sys.argv) > 1 else ''
 known = cli.load_known_findings()
+targets = [qn for qn in spec.REGISTRY if pat in qn]
+t0 = time.time()
+reports, crashes = cli.run_all(targets, 'quick', 0)
+for qn, err in crashes: print('CRASH', qn, err)
 agg = {}
-for qn in list(spec.REGISTRY):
-    if pat not in qn: continue
-    rep = V.verify(qn)
-    for u in rep.undecided: print('UNDECIDED', qn, u)
+for qn, rep in reports.items():
+    res = {}
+    for ob in rep.obligations: res[ob.result] = res.get(ob.result, 0) + 1
+    print('%-58s paths=%d aborted=%d bounded_out=%d obs=%s canary=%s vacuous=%s cpu=%.1fs' % (qn, rep.paths, rep.aborted, rep.bounded_out, res, rep.canary, rep.vacuous, rep.wall_s))
+    for u in rep.undecided: print('   UNDECIDED', u)
     for ob in rep.obligations:
         if ob.result == 'proved': continue
         covered = [f['id'] for f in known if any(cli.finding_matches(f, p, ob) for p in ob.props)]
@@ -17,3 +21,4 @@ for qn in list(spec.REGISTRY):
         agg.setdefault(key, []).append(ob)
 for (oid, site, res, cov), obs in sorted(agg.items()):
     print('%s %s\n    site=%r n=%d props=%s covered_by=%s\n    clause: %s\n    path: %s' % (res.upper(), oid, site, len(obs), obs[0].props, list(cov), obs[0].clause[:200], ' / '.join(obs[0].path[-8:])))
+print('wall %.1fs' % (time.time() - t0))
